@@ -102,6 +102,15 @@ def wide_ops(ctx: Ctx, table: list) -> list[dict]:
         for a in accts + chosen.get(meth, []):          # random accounts and one per path class of the method
             b = code + a
             iban("DE" + gen.check_digits("DE", b) + b, vb=True, entries=("iban.new", "iban.validate"))
+        # ... and every account of the method directly after every other one (the verdict on a text, and
+        # so the error class raised for it, must not depend on the validation that happened before)
+        fam = chosen.get(meth, [])
+        for x in fam:
+            for y in fam:
+                if x != y:
+                    for a in (x, y):
+                        b = code + a
+                        iban("DE" + gen.check_digits("DE", b) + b, vb=True, entries=("iban.new",))
     for code in ("00000000", "99999999"):
         b = code + "0532013000"
         iban("DE" + gen.check_digits("DE", b) + b, vb=True, entries=("iban.new", "iban.validate"))
